@@ -10,11 +10,12 @@ theorem toplevelLoop_progress (sub : List TK → List TK) (hs : NoUnread sub) (f
   | zero => omega
   | succ f ih =>
     have hflag : toplevelOtherConsumes = true := by decide
+    have hkw : toplevelConsumesKeyword = true := by decide
     cases ts with
     | nil => simp [toplevelLoop]
     | cons t rest =>
       have hr : rest.length < f := by simp only [List.length_cons] at h; omega
-      cases t <;> simp only [toplevelLoop, consumeIf, hflag, if_true, List.tail_cons]
+      cases t <;> simp only [toplevelLoop, consumeIf, hflag, hkw, if_true, List.tail_cons]
       · exact ih (sub rest) (by have := hs rest; omega)
       all_goals exact ih rest hr
 
@@ -40,6 +41,7 @@ theorem blockLoop_progress (sub : List TK → List TK) (hs : NoUnread sub) (f : 
   | zero => omega
   | succ f ih =>
     have hsemi : blockSemiConsumes = true := by decide
+    have hlet : statementConsumesLet = true := by decide
     have helse : blockElseConsumes = true := by decide
     cases ts with
     | nil => simp [blockLoop]
@@ -62,7 +64,9 @@ theorem blockLoop_progress (sub : List TK → List TK) (hs : NoUnread sub) (f : 
           simp only [consumeIf, helse, if_true, List.tail_cons]
           exact ih r (by omega)
       cases t
-      case letK => simp only [blockLoop]; exact ih (sub rest) (by have := hs rest; omega)
+      case letK =>
+        simp only [blockLoop, consumeIf, hlet, if_true, List.tail_cons]
+        exact ih (sub rest) (by have := hs rest; omega)
       case rbrace => simp [blockLoop]
       case semi => simp only [blockLoop, consumeIf, hsemi, if_true, List.tail_cons]; exact ih rest hr
       all_goals (simp only [blockLoop]; exact other _)
